@@ -15,6 +15,25 @@ def simcore_designs(invariants, properties=()):
     ]
 
 
+SIMRUN_INV = {"Inv_C03_OneInFlight", "Inv_C04_Conserved", "Inv_C04_CompleteIff", "Inv_C10_LiveTradesExact", "Inv_C10_TradeCompleteIff",
+              "Inv_C10_NoTradePending", "Inv_C15_LiveListComplete", "Inv_C07_NoDueLeft", "Inv_C05_FokNeverRests", "Inv_C09_RemovedComplete"}
+SIMRUN_PROP = {"Prop_C03_Finality", "Prop_C04_MatchedMonotone"}
+
+
+def simrun_designs(invariants, properties=(), quick=True):
+    """the closed concrete model (environment + matching engine + strategy menu), the same one whose
+    behaviours are replayed into the real code"""
+    inv = [i for i in invariants if i in SIMRUN_INV]
+    prp = [q for q in properties if q in SIMRUN_PROP]
+    out = []
+    if quick:
+        out.append({"module": "MC_SimRun", "constants": {"MaxUpdates": "3", "MaxReqs": "2"}, "view": "View", "invariants": inv, "properties": prp,
+                    "must_reach": ["Reach_Replacement"], "timeout": 900})
+    out.append({"module": "MC_SimRun", "constants": {"MaxUpdates": "4", "MaxReqs": "3"}, "view": "View", "invariants": inv, "properties": prp,
+                "must_reach": ["Reach_PartialFill", "Reach_QueueHonoured"], "tier": "thorough", "timeout": 2400})
+    return out
+
+
 LIFECYCLE_PROFILES = [
     {},
     {"p_suspend": 0.25, "p_cancel": 0.4, "p_removal": 0.08},
@@ -85,7 +104,7 @@ SIM = {
     },
     "C03": {
         "props": ["C03"],
-        "designs": simcore_designs(["Inv_C03_OneInFlight"], ["Prop_C03_Finality"]),
+        "designs": simcore_designs(["Inv_C03_OneInFlight"], ["Prop_C03_Finality"]) + simrun_designs(["Inv_C03_OneInFlight"], ["Prop_C03_Finality"], quick=False),
         "profiles": LIFECYCLE_PROFILES,
         "n_quick": 160, "n_thorough": 4000,
         "rule": "seeded random market histories x strategy scripts through the real FlumineSimulation; every _update_status call, request and recorded state judged by the C03 formulas of SimProps.tla; distinct = distinct (event sequence, final order table)",
@@ -93,7 +112,8 @@ SIM = {
     },
     "C04": {
         "props": ["C04"],
-        "designs": simcore_designs(["Inv_C04_Conserved", "Inv_C04_CompleteIff"], ["Prop_C04_MatchedMonotone"]),
+        "designs": simcore_designs(["Inv_C04_Conserved", "Inv_C04_CompleteIff"], ["Prop_C04_MatchedMonotone"])
+        + simrun_designs(["Inv_C04_Conserved", "Inv_C04_CompleteIff"], ["Prop_C04_MatchedMonotone"]),
         "profiles": LIFECYCLE_PROFILES + [{"p_partial_cancel": 0.8, "p_big_reduction": 0.5, "p_removal": 0.12, "p_cancel": 0.5}],
         "n_quick": 200, "n_thorough": 5000,
         "rule": "as C03; the size buckets of every order are judged whenever a strategy callback is entered",
@@ -101,7 +121,8 @@ SIM = {
     },
     "C10": {
         "props": ["C10"],
-        "designs": simcore_designs(["Inv_C10_LiveTradesExact", "Inv_C10_TradeCompleteIff", "Inv_C10_NoTradePending", "Inv_C10_RcClean"]),
+        "designs": simcore_designs(["Inv_C10_LiveTradesExact", "Inv_C10_TradeCompleteIff", "Inv_C10_NoTradePending", "Inv_C10_RcClean"])
+        + simrun_designs(["Inv_C10_LiveTradesExact", "Inv_C10_TradeCompleteIff", "Inv_C10_NoTradePending"], quick=False),
         "profiles": LIFECYCLE_PROFILES + [{"p_limits": 0.9, "p_cooldown": 0.6, "p_multi_trade": 0.5, "gaps": [1, 40, 100, 120, 121, 1000, 5000], "p_ctx_trade": 0.3}],
         "n_quick": 200, "n_thorough": 5000,
         "rule": "as C03; runner contexts recounted from the orders at the end of every update, limits checked at every accepted placement",
@@ -112,7 +133,7 @@ SIM = {
         "designs": [
             {"module": "MC_SimMatch", "constants": MATCH_PLACE_Q, "invariants": C05_INV, "must_reach": ["Reach_FokFilled", "Reach_Resting"]},
             {"module": "MC_SimMatch", "constants": MATCH_PLACE_T, "invariants": C05_INV, "tier": "thorough"},
-        ],
+        ] + simrun_designs(["Inv_C05_FokNeverRests", "Inv_C04_Conserved"]),
         "profiles": MATCH_PROFILES,
         "n_quick": 210, "n_thorough": 6000,
         "rule": "design: every book (<=2 levels/side over 3 prices x 3 sizes) x every limit order flavour; real code: seeded random books/orders through the real stack, each placement's fragments judged against the book the placement executed against",
@@ -132,7 +153,7 @@ SIM = {
     },
     "C07": {
         "props": ["C07"],
-        "designs": simcore_designs(["Inv_C07_NoDueLeft"]),
+        "designs": simcore_designs(["Inv_C07_NoDueLeft"]) + simrun_designs(["Inv_C07_NoDueLeft"]),
         "profiles": [{"gaps": [1, 60, 119, 120, 121, 149, 150, 151, 169, 170, 171, 279, 280, 281, 1000, 1119, 1120, 1121, 5000], "p_inplay": 0.25, "bet_delays": [1, 2, 5, 12], "p_action": 0.7, "p_cancel": 0.35},
                      {"n_markets": (2, 2), "event_processing": True, "p_inplay": 0.2, "p_action": 0.7},
                      {"latencies": [{"place_latency": 0.001, "cancel_latency": 0.001, "update_latency": 0.001, "replace_latency": 0.001}, {"place_latency": 1.0, "cancel_latency": 0.5, "update_latency": 2.0, "replace_latency": 0.0}], "gaps": [1, 2, 500, 999, 1000, 1001, 2000, 2001]}],
@@ -142,7 +163,7 @@ SIM = {
     },
     "C09": {
         "props": ["C09", "M"],
-        "designs": simcore_designs(["Inv_C09_RemovedComplete", "Inv_C04_Conserved"]) ,
+        "designs": simcore_designs(["Inv_C09_RemovedComplete", "Inv_C04_Conserved"]) + simrun_designs(["Inv_C09_RemovedComplete", "Inv_C04_Conserved"]),
         "profiles": [{"p_removal": 0.15, "p_sp_order": 0.25, "p_moc_pers": 0.2, "p_inplay": 0.15, "p_partial_cancel": 0.6, "p_cancel": 0.4},
                      {"p_removal": 0.12, "n_markets": (2, 2), "event_processing": True},
                      {"p_removal": 0.12, "n_markets": (2, 2)}],
@@ -176,7 +197,8 @@ SIM = {
     },
     "C15": {
         "props": ["C15"],
-        "designs": simcore_designs(["Inv_C15_LiveListComplete", "Inv_C15_LiveInBlotter"], ["Prop_C15_RemovedOnlyAfterComplete"]),
+        "designs": simcore_designs(["Inv_C15_LiveListComplete", "Inv_C15_LiveInBlotter"], ["Prop_C15_RemovedOnlyAfterComplete"])
+        + simrun_designs(["Inv_C15_LiveListComplete"], quick=False),
         "profiles": LIFECYCLE_PROFILES,
         "n_quick": 160, "n_thorough": 4000,
         "rule": "as C03; blotter membership / live list judged at the end of every update and on every step",
